@@ -100,8 +100,18 @@ def tall_table() -> dict:
     return dict(name="tt", cols=[("rid", "int"), ("a", "int"), ("b", "int"), ("g", "int"), ("p", "bool")], rows=rows)
 
 
+# sized column types: the specification treats them as their family
+SPEC_TYPE = {"int32": "int", "int8": "int", "uint16": "int", "float32": "float"}
+
+
+def sized_table() -> dict:
+    """index 13: sized integer / float columns (C12: concrete static types must equal the exported types)"""
+    rows = [[1, 3, 7, (1, 2), 2, True], [None, -2, 0, (-3, 4), None, None], [2, None, 200, None, -1, False], [-3, 5, None, (5, 2), 4, True]]
+    return dict(name="tz", cols=[("a", "int32"), ("b", "int8"), ("u", "uint16"), ("f", "float32"), ("g", "int"), ("p", "bool")], rows=rows)
+
+
 def all_sources(seed: int) -> list[dict]:
-    return FIXED + seeded(seed) + EXTRA + [value_table(), string_table(), cast_table(), tall_table()]
+    return FIXED + seeded(seed) + EXTRA + [value_table(), string_table(), cast_table(), tall_table(), sized_table()]
 
 
 def col_id(src_index: int, col_index: int) -> int:
@@ -138,7 +148,7 @@ def sources_module(seed: int) -> str:
     tabs = []
     for si, s in enumerate(srcs):
         cols = tla_seq(
-            f'[id |-> {col_id(si, ci)}, nm |-> "{n}", ty |-> "{ty}"]' for ci, (n, ty) in enumerate(s["cols"])
+            f'[id |-> {col_id(si, ci)}, nm |-> "{n}", ty |-> "{SPEC_TYPE.get(ty, ty)}"]' for ci, (n, ty) in enumerate(s["cols"])
         )
         data = tla_seq(tla_seq(tla_value(v) for v in row) for row in s["rows"])
         tabs.append(f'Source({cols},\n          {data}, "{s["name"]}", {si + 1})')
